@@ -241,6 +241,13 @@ func (r *Run) Finish() {
 	}
 	fmt.Printf("SUMMARY property=%s tier=%s evaluations=%d distinct=%d exhaustive=%v violations=%d wall=%.1fs\n",
 		r.ID, r.Tier, r.Evaluations.Load(), len(r.distinct), r.exhaustive, len(r.violations), time.Since(r.start).Seconds())
+	for i, c := range r.capsHit {
+		if i == 5 {
+			fmt.Printf("  cap: ... %d more\n", len(r.capsHit)-5)
+			break
+		}
+		fmt.Printf("  cap: %s\n", c)
+	}
 	if len(r.violations) > 0 {
 		for _, k := range r.order {
 			v := r.violations[k]
